@@ -2,7 +2,7 @@
    consumers of a loaded module; everything else by sanitizer exploration). *)
 From Coq Require Import ZArith List Lia Bool.
 Import ListNotations.
-From LX Require Import Base.ListAux Generated.Consts Model.ModuleWf Model.Gate Proofs.GateProofs Model.Bounds Proofs.BoundsProofs Model.Envelope Proofs.EnvelopeProofs.
+From LX Require Import Base.ListAux Generated.Consts Model.ModuleWf Model.Gate Proofs.GateProofs Model.Bounds Proofs.BoundsProofs Model.Envelope Proofs.EnvelopeProofs Generated.MixTables Model.Lfo Proofs.LfoProofs.
 Local Open Scope Z_scope.
 
 (* Whatever a loader produced from whatever bytes: if the module passed the gate with the loaders' post-condition and has
@@ -97,4 +97,37 @@ Example c01_envelope_nonvacuous :
   env_okb e = true /\ get_envelope e data 15 0 = Some 48 /\
   env_okb {| e_flg := 5; e_npt := 4; e_sus := 0; e_sue := 0; e_lps := 0; e_lpe := 40 |} = false /\
   update_envelope EGeneric {| e_flg := 5; e_npt := 4; e_sus := 0; e_sue := 0; e_lps := 0; e_lpe := 40 |} data 5 false false = None.
+Proof. vm_compute. repeat split; reflexivity. Qed.
+
+(* ---------------------------------------------------------------- LFOs and the random source (lfo.c, rng.c) ------------------ *)
+(* libxmp_lfo_get reads sine_wave[lfo->phase].  The phase is written by libxmp_lfo_update (masked) and by libxmp_lfo_set_phase,
+   which the source only ever calls with 0 (the call sites' argument texts are regenerated from the source on every run; no file
+   writes the member directly): in every state reachable from the zero-initialised LFO by any sequence of operations - any
+   rate, depth, waveform number - the read is inside the 64 entries, for all four player flavours, and the value is at most
+   256 * |depth|.  checks/C01.py runs the same operation sequences through lfo.c / rng.c and the extracted model. *)
+Theorem lfo_phase_stays_in_table : forall ops, phase_ok (fold_left lfo_op ops lfo_zero).
+Proof. exact lfo_reachable_phase. Qed.
+Print Assumptions lfo_phase_stays_in_table.
+
+Theorem lfo_table_access_in_bounds : forall ops mode vib rs, 0 <= rs ->
+  exists v rs', lfo_get mode vib rs (fold_left lfo_op ops lfo_zero) = Some (v, rs') /\
+                Z.abs v <= 256 * Z.abs (l_depth (fold_left lfo_op ops lfo_zero)).
+Proof. intros ops mode vib rs R. apply lfo_get_spec; [apply lfo_reachable_phase|exact R]. Qed.
+Print Assumptions lfo_table_access_in_bounds.
+
+Theorem lfo_phase_is_only_set_to_zero : phase_writers_okb = true.
+Proof. exact phase_writers_ok. Qed.
+Print Assumptions lfo_phase_is_only_set_to_zero.
+
+(* libxmp_get_random(range) returns a value below range (0 for range 0) and keeps its state inside 32 bits *)
+Theorem random_value_below_range : forall st range v s, 0 <= range -> get_random st range = (v, s) ->
+  0 <= s < 2 ^ 32 /\ 0 <= v /\ (0 < range -> v < range) /\ (range = 0 -> v = 0).
+Proof. exact get_random_range. Qed.
+Print Assumptions random_value_below_range.
+
+(* non-vacuity: a sequence that wraps the phase with a negative rate; and outside the invariant the access does leave the table *)
+Example c01_lfo_nonvacuous :
+  l_phase (fold_left lfo_op [SetRate (-5); SetDepth 3; Update; Update] lfo_zero) = 54 /\
+  lfo_get RMod false 1 (fold_left lfo_op [SetRate (-5); SetDepth 3; Update; Update] lfo_zero) = Some (-212 * 3, 1) /\
+  lfo_get RMod false 1 {| l_type := 0; l_rate := 1; l_depth := 1; l_phase := 64 |} = None.
 Proof. vm_compute. repeat split; reflexivity. Qed.
